@@ -1,6 +1,6 @@
 From Coq Require Import ExtrOcamlBasic.
 From Coq Require Import NArith ZArith String.
-From HV Require Import Gen.Tables Text.TypeOrder Topo.Dump Topo.Obj Topo.Helpers Topo.Distrib.
+From HV Require Import Gen.Tables Text.TypeOrder Topo.Dump Topo.Obj Topo.Helpers Topo.Distrib Topo.HelpersProofs Topo.DistribProofs.
 Extraction "c09_model.ml" tree_of_dump nflatten flatten
   get_obj_covering_cpuset get_child_covering_cpuset get_first_largest_obj_inside_cpuset get_largest_objs_inside_cpuset
   iter_inside iter_covering get_nbobjs_inside_cpuset_by_depth get_obj_inside_cpuset_by_depth get_obj_index_inside_cpuset
@@ -10,6 +10,7 @@ Extraction "c09_model.ml" tree_of_dump nflatten flatten
   covering_spec largest_spec inside_spec covering_iter_spec to_nodeset_spec from_nodeset_spec common_ancestor_spec
   closest_spec same_locality_spec type_depth_spec depth_type_spec singlify_spec
   slots_sets distrib_spec_cover distrib_spec_disjoint distrib_disjoint_applies wsum weight_u dist_leaves
+  tree_wf level_ok wbound
   is_normal is_memory is_io
   HWLOC_TYPE_DEPTH_NUMANODE HWLOC_OBJ_TYPE_MAX
   String.length N.of_uint N.to_uint Z.of_N Z.to_N.
